@@ -142,7 +142,10 @@ def parse_tlc_output(path: str) -> TlcResult:
                 elif "Deadlock reached" in line:
                     res.violated, res.error_kind = "deadlock", "deadlock"
                 elif "Postcondition" in line or "postcondition" in line:
-                    res.violated, res.error_kind = "postcondition", "postcondition"
+                    # an invariant / property violated earlier in the same run is the verdict (TLC stops exploring there, so the
+                    # postcondition of a trace batch fails as a consequence)
+                    if res.error_kind not in ("invariant", "property"):
+                        res.violated, res.error_kind = "postcondition", "postcondition"
                 elif "The behavior up to this point" in line or "The following behavior" in line:
                     in_trace = True
                 elif res.error_kind is None:
